@@ -15,8 +15,10 @@
    value; the token after a leaf / leaf-list name is its value and must be the
    last one.  Ending on a non-presence container, on a list name or on a leaf
    (leaf-list) name without value is acceptable only when incomplete paths are
-   allowed (inc); an empty-typed leaf has no value, so its name ends a complete
-   path.  Ending on a presence container, a list entry or a value is complete.
+   allowed (inc); an empty-typed leaf needs no value, so its name ends a complete
+   path (the only token its type accepts after the name is the empty string, and
+   like any value it must be the last one).  Ending on a presence container, a list
+   entry or a value is complete.
 
    Verdict: [ok, at]; at = 0 when accepted, else the 1-based index of the first
    offending token, Len(p) + 1 when the path is a proper prefix of accepted paths
@@ -44,7 +46,7 @@ RecNode(n, p, i, inc) ==
          ELSE IF i = Len(p) THEN Ok
          ELSE RecKids(n.kids, p, i + 1, inc)
     [] ValueNode(n) ->
-         IF i > Len(p) THEN (IF n.typ = "empty" \/ inc THEN Ok ELSE Bad(i))
+         IF i > Len(p) THEN (IF IsEmptyType(n.typ) \/ inc THEN Ok ELSE Bad(i))
          ELSE IF ~TypeAccepts(n.typ, p[i]) THEN Bad(i)
          ELSE IF i < Len(p) THEN Bad(i + 1)
          ELSE Ok
@@ -98,7 +100,7 @@ EndVerdict(st, n, inc) ==
   CASE st.ph = "in"    -> IF st.node.presence \/ inc THEN Ok ELSE Bad(n + 1)
     [] st.ph = "key"   -> IF inc THEN Ok ELSE Bad(n + 1)
     [] st.ph = "entry" -> Ok
-    [] st.ph = "val"   -> IF st.node.typ = "empty" \/ inc THEN Ok ELSE Bad(n + 1)
+    [] st.ph = "val"   -> IF IsEmptyType(st.node.typ) \/ inc THEN Ok ELSE Bad(n + 1)
     [] st.ph = "done"  -> Ok
     [] st.ph = "rej"   -> Bad(st.at)
 
@@ -161,13 +163,20 @@ PathShape(id) ==
     [] id = 12 ->  \* choice with a single case inside a non-presence container inside a choice
          << Choice("o", << Case("o1", << Cont("np", << Choice("i", << Case("i1", << Leaf("x", "int8"), PCont("pp", << >>) >>) >>) >>) >>),
                            Case("o2", << Leaf("y", "empty") >>) >>) >>
-NPathShapes == 12
+    [] id = 13 ->  \* types through typedefs, empty-typed leaves (direct and typedef) in a list entry and a case,
+                   \* a choice, its short-hand case and the leaf in it sharing one name, a case named like its choice
+         << List("top", "k", << Leaf("k", "tstring"), Leaf("enabled", "tempty"), Leaf("e", "empty"), Leaf("i", "tint8"),
+                                LL("tl", "tint8"),
+                                Choice("speed", << Leaf("speed", "tempty"), Case("duplex", << Leaf("duplex", "tstring") >>) >>) >>),
+            Choice("x", << Case("x", << Leaf("x", "tint8") >>), Case("y", << Cont("y", << Leaf("y", "tempty") >>) >>) >>) >>
+NPathShapes == 13
 
 \* tokens tried on a shape: every name of the schema (choice and case names included),
-\* a valid integer (also a valid string), a token no type but string accepts, an unknown name
-PathTokens(schema) == AllNames(schema) \cup {"5", "bad", "zz"}
-\* values used inside viable paths
-PathValues == {"5", "bad"}
+\* a valid integer (also a valid string), a token no type but string accepts, an unknown name,
+\* and the empty token (the value of type empty, a valid string, no integer, no name)
+PathTokens(schema) == AllNames(schema) \cup {"5", "bad", "zz", ""}
+\* values used inside viable paths (valid and invalid ones for every type)
+PathValues == {"5", "bad", ""}
 
 \* judged paths: every viable path of at most n tokens, continued by every sequence of
 \* at most x tokens (one-token corruptions and over-long tails of every valid prefix)
